@@ -106,6 +106,8 @@ let () =
     show_opt show_zlist (TextChars.solve_result_text (text_of_sexp t) (z_of_sexp sup)) | _ -> "!args");
   register "c_unigen_format" (function [ss] ->
     show_text (TextChars.unigen_format_text (list_of_sexp zlist_of_sexp ss)) | _ -> "!args");
+  register "c_cmsgen_format" (function [ss; sols] ->
+    show_text (TextChars.cmsgen_format_text (zlist_of_sexp ss) (list_of_sexp bools_of_sexp sols)) | _ -> "!args");
   register "c_parse_sampler" (function [t] ->
     show_opt (show_list (fun (a, fq) -> "(" ^ show_zlist a ^ " " ^ show_z fq ^ ")"))
       (TextChars.parse_sampler_text (text_of_sexp t)) | _ -> "!args");
